@@ -11,6 +11,7 @@ classify a path value into
   None                          anything else (outside / unknown)
 """
 JOIN = ('std::path::Path::join', 'std::path::PathBuf::join')
+SLICER = None   # set by check: lets path recognisers look through private path-building helpers
 
 
 def strip(v):
@@ -72,6 +73,11 @@ class LayerPaths:
                 return None
             if name == 'libcnb::layer::struct_api::LayerRef::<B, MAC, RAC>::path':
                 return None
+            # a private helper that only computes the path (e.g. `layer_toml_path(dir, name)`) is transparent
+            if SLICER is not None and depth < 6:
+                iv = SLICER.inline_call(v)
+                if iv is not None and iv != v:
+                    return self.classify(iv, depth + 1)
         return None
 
     def inside_layer(self, cls):
@@ -112,3 +118,20 @@ def cls_str(c):
     if c[0] == 'CHILD':
         return '%s/*' % cls_str(c[1])
     return c[0]
+
+
+def sbom_formats_covered(effs, classify):
+    """set of SbomFormat variant names whose SBOM file is the target of one of the effects: a concrete
+    `SbomFormat::X`, or the element of an iteration over a collection that lists variants (FORALL)"""
+    from .value import walk
+    out = set()
+    for e in effs:
+        k = classify(e.path)
+        if k is None or k[0] != 'SBOM':
+            continue
+        fmtv = strip(k[1])
+        if fmtv[0] == 'agg' and (fmtv[1] or '').endswith('SbomFormat') and fmtv[2]:
+            out.add(fmtv[2])
+        elif e.forall is not None and any(x[0] == 'call' and x[1] == 'std::iter::Iterator::next' for x in walk(fmtv)):
+            out.update(x[2] for x in walk(strip(e.forall)) if x[0] == 'agg' and (x[1] or '').endswith('SbomFormat'))
+    return out
